@@ -62,7 +62,7 @@ ASSUMPTIONS = [
 ]
 NOT_REACHED = [
     "in-memory inputs other than one io.BytesIO / io.StringIO per file (e.g. open file handles)", "'\\r'-only line ends",
-    "non-integer SAMP_FREQ / sample rate in SAF and MiniShark headers",
+    "non-integer sample rate in MiniShark headers",
     "PEER azimuth pairs that are not right-handed (h, h+90) with the first horizontal within 45 degrees of north (e.g. 180/270, 010/280: the reader keeps the stored polarity, which mirrors azimuthal results - reported as an aside, not judged)",
     "miniSEED files with gaps / more than one segment per channel, sample-count corruption inside miniSEED/GCF records",
     "records longer than 20000 samples except the real example files (180001 samples)",
@@ -497,12 +497,17 @@ def build_saf(ctx, rng, d, n, ch_ids=("V", "N", "E"), tag="saf", shared=None, eo
             # the orientation is a real number of degrees: decimals (12.5, 347.25) and negative values (-30) are legal
             north_rot = [float(rng.integers(0, 360)) + float(rng.choice([0.5, 0.25, 0.75])), -int(rng.integers(1, 180)),
                          -float(rng.integers(1, 90)) - 0.5][int(rng.integers(0, 3))]
-        shared = ({"vt": vt, "ns": ns, "ew": ew}, int(rng.choice(FS_INT)), north_rot, mode)
-    data, fs, north_rot = shared[:3]
+        fs0 = int(rng.choice(FS_INT))
+        if rng.random() < 0.15:
+            # the sampling frequency is a real number of hertz: "100.0", "62.5", "12.5" are legal header values
+            fs0 = str(rng.choice([f"{fs0}.0", f"{fs0}.000", "62.5", "12.5", "31.25"]))
+        shared = ({"vt": vt, "ns": ns, "ew": ew}, fs0, north_rot, mode)
+    data, fs_written, north_rot = shared[:3]
+    fs = float(fs_written)
     eol = eol or str(rng.choice(["\n", "\r\n"]))
     by_letter = {"V": data["vt"], "N": data["ns"], "E": data["ew"]}
     path = os.path.join(d, f"{tag}_{''.join(ch_ids)}_{'crlf' if eol != chr(10) else 'lf'}.saf")
-    FF.write_saf(path, [by_letter[x] for x in ch_ids], ch_ids, fs, north_rot, eol, rich_header=bool(rng.random() < 0.7))
+    FF.write_saf(path, [by_letter[x] for x in ch_ids], ch_ids, fs_written, north_rot, eol, rich_header=bool(rng.random() < 0.7))
     ctx.count("files_written:saf")
     maybe_strip_final_newline(ctx, rng, path)
     if north_rot is None:
